@@ -196,3 +196,13 @@ Theorem C07_isimip_month_mode_defined_on_real_calendars : forall (T V : Type) (n
     forall k, (k < n)%nat -> exists v, nth k out None = Some v.
 Proof. exact isimip_month_mode_defined_on_real_calendars. Qed.
 Print Assumptions C07_isimip_month_mode_defined_on_real_calendars.
+
+(** ... and the value each time step receives is the entry of ITS month's pipeline result at its position among the
+    time steps of that month (exactly once, from the sample containing it) *)
+Theorem C07_isimip_month_mode_spec : forall (T V : Type) (mo mh mf : list Z) (obs hist fut : list T)
+    (W : list T -> list T -> list T -> list V),
+  length fut = length mf -> (forall o h f, length (W o h f) = length f) -> (forall m, In m mf -> 1 <= m <= 12) ->
+  exists out, months_driver V mo mh mf obs hist fut W = Some out /\ length out = length mf /\
+    forall k, (k < length mf)%nat -> nth k out None = value_at T V mo mh mf obs hist fut W k.
+Proof. exact months_driver_spec. Qed.
+Print Assumptions C07_isimip_month_mode_spec.
